@@ -4,7 +4,7 @@
 // after end of input was signalled and every emitted item left the last filter.  DESIGN.md s.6 C07.
 //
 // program text:
-//   pipe par=<1..4> ntok=<1..8> n=<0..40> nf=<1..6> split=<1..nf> form=<0..3> stopw=<k> rounds=<1|2>
+//   pipe par=<1..4, 10..12> ntok=<1..16> n=<0..40> nf=<1..6> split=<1..nf> form=<0..3> stopw=<k> rounds=<1|2>
 //   f <stage> <mode p|i|o> <link 0|1|2> <ctor 0|1> w0 w1 ... w(n-1)
 // mode  p parallel, i serial_in_order, o serial_out_of_order
 // link  type of the value this filter hands to the next one: 0 int (passed inside the void*; id 0 is a
@@ -25,9 +25,12 @@ bool H_TSO = true;
 // ------------------------------------------------------------------ generator
 std::string h_gen(Src& s) {
     int par = 1 + (int)s.weighted({ 1, 4, 4, 3 });
-    int ntok = 1 + (int)s.weighted({ 1, 2, 3, 3, 2, 2, 1, 2 });
+    bool wide = s.coin(8);       // many threads, many tokens, early items slow: a late item reaches a serial stage first, more than twice the ring size ahead of the lowest token
+    if (wide) par = 10 + (int)s.choose(3);
+    int ntok = 1 + (int)s.weighted({ 1, 2, 3, 3, 2, 2, 1, 2, 1, 1, 0, 2, 0, 0, 0, 1 });      // up to 16: more than twice the initial ring of a serial stage
+    if (wide) ntok = 10 + (int)s.choose(7);
     static const int ns[] = { 0, 1, 2, 3, 5, 6, 8, 9, 12, 16, 17, 24, 33, 40 };
-    int n = ns[s.choose(14)];
+    int n = ns[s.choose(14)]; if (wide && n < 12) n = 12 + (int)s.choose(12);
     int nf = 1 + (int)s.weighted({ 1, 4, 6, 5, 3, 2 });
     int split = nf > 1 ? s.range(1, nf) : 1; if (s.flip()) split = nf;
     int form = (int)s.choose(4); if (split == nf && form >= 2) form -= 2;
@@ -36,7 +39,8 @@ std::string h_gen(Src& s) {
     std::string o = "pipe par=" + std::to_string(par) + " ntok=" + std::to_string(ntok) + " n=" + std::to_string(n) + " nf=" + std::to_string(nf) +
                     " split=" + std::to_string(split) + " form=" + std::to_string(form) + " stopw=" + std::to_string(stopw) + " rounds=" + std::to_string(rounds) + "\n";
     // work profile of the whole case: uniform small / mixed / a few very slow items (a slow item in a parallel stage lets many later ones park behind it)
-    int prof = (int)s.weighted({ 1, 4, 4 });
+    // profile 3: the earlier an item, the slower it is in every parallel stage, so late items reach the next serial stage first (far ahead of the lowest token)
+    int prof = (int)s.weighted({ 1, 4, 4, 3 }); if (wide) prof = 3;
     for (int f = 0; f < nf; f++) {
         // serial_in_order filters after a parallel one are where tokens get parked; make them frequent
         uint32_t m = s.weighted({ 5, 4, 2 });
@@ -47,7 +51,8 @@ std::string h_gen(Src& s) {
             int w;
             if (prof == 0) w = s.range(0, 2);
             else if (prof == 1) w = s.coin(3) ? s.range(0, 30) : s.range(0, 3);
-            else w = s.coin(6) ? s.range(12, 30) : s.range(0, 1);
+            else if (prof == 2) w = s.coin(6) ? s.range(12, 30) : s.range(0, 1);
+            else w = (m == 0) ? std::max(0, 48 - 4 * (i % 16)) + s.range(0, 2) : s.range(0, 1);
             o += " " + std::to_string(w);
         }
         o += "\n";
